@@ -33,6 +33,8 @@ def _fails(world, plan, focus, target):
 
 def minimise(world, plan, focus, violation, max_execs=400, max_seconds=60.0):
     target = (violation["property"], violation["oracle"])
+    if violation["oracle"] == "run_did_not_terminate_within_the_wall_limit":
+        return copy.deepcopy(plan), violation, 0        # every candidate would cost the whole wall limit
     t0 = time.monotonic()
     execs = [0]
 
